@@ -6,8 +6,10 @@ package wire
 // counts the I/O steps the code under test performs on it, reads and writes on
 // ONE counter in call order (a cedar call is sequential). Read fills the whole
 // buffer (io.ReadFull on the inner conn): cedar always asks for exact sizes
-// through io.ReadFull, so one readWithContext is exactly one step. (That is
-// not true for a TLS layer on top, so no SSL shape can use this conn.)
+// through io.ReadFull, so one readWithContext is exactly one step. That also
+// holds for cedar's SSL method: its TLS records are carried INSIDE cedar
+// messages (security.CEDARTLSConnection), crypto/tls never reads the socket
+// itself, so the socket still sees exact-size reads only.
 //
 // Step StallAt never completes on its own: it blocks until Close is called,
 // exactly like a read from / write to a peer that has stopped, and then fails
